@@ -1,0 +1,11 @@
+//go:build verif
+
+package client
+
+// VerifHandlerCount is the number of registered calls. Compiled only with the
+// "verif" build tag.
+func (rm *RpcMultiplexer) VerifHandlerCount() int {
+	rm.mutex.Lock()
+	defer rm.mutex.Unlock()
+	return len(rm.handlers)
+}
